@@ -195,6 +195,21 @@ def run(chk):
             guarded("%s.fit_using_array" % kind.upper(), {"X": Xa, "y": ya, "ubm": ubm},
                     lambda: fa.make_machine(kind, ubm, 1, 1, em_iterations=1, random_state=1).fit_using_array(Xa, ya),
                     lambda o: [np.asarray(o.U)], twice=False)
+            # a UBM that was untrained when the machine was constructed but has been trained by the caller since: fit_using_array leaves it alone
+            late_ubm = GMMMachine(n_gaussians=2, max_fitting_steps=2, convergence_threshold=None, update_variances=True,
+                                  k_means_trainer=KMeansMachine(2, init_method=np.asarray(ubm.means).copy(), max_iter=1))
+            cls_ = em.ISVMachine if kind == "isv" else em.JFAMachine
+            mlate = cls_(r_U=1, em_iterations=1, ubm=late_ubm, random_state=1, **({} if kind == "isv" else {"r_V": 1}))
+            late_ubm.fit(np.vstack(Xa))
+            snap_ubm = snap(late_ubm)
+            try:
+                mlate.fit_using_array(Xa, ya)
+                chk.count(1, key=("%s.fit_using_array[ubm trained by the caller after construction]" % kind.upper(),))
+                if snap(late_ubm) != snap_ubm:
+                    chk.fail("%s.fit_using_array re-trains / modifies a UBM that the caller had already trained (it was untrained only when the machine was constructed)"
+                             % kind.upper(), {"kind": kind})
+            except Exception as e:
+                chk.fail("%s.fit_using_array with a UBM trained after construction raises %r" % (kind.upper(), e), {"kind": kind})
             guarded("%s.enroll_using_array/score_using_array" % kind.upper(), {"X": Xa, "machine": mach},
                     lambda: (mach.enroll_using_array(Xa[0]), mach.score_using_array(mdl, list(Xa[:2]))), lambda o: [])
         # ---------------------------------------------------------------- i-vector
@@ -205,6 +220,19 @@ def run(chk):
                 return mach.fit(dask.bag.from_sequence(stats, npartitions=3) if bag else stats)
             ivm = guarded("IVectorMachine.fit[%s]" % ("bag" if bag else "list"), {"stats": stats, "ubm": ubm}, fit_iv,
                           lambda o: [np.asarray(o.T), np.asarray(o.sigma)])
+        for upd in (False, True):
+            np.random.seed(3)
+            ubm_iv = copy.deepcopy(ubm)
+            ivk = iv.IVectorMachine(ubm=ubm_iv, dim_t=2, max_iterations=2, update_sigma=upd).fit(stats)
+            chk.count(1, key=("IVectorMachine.fit aliasing", upd))
+            if np.shares_memory(np.asarray(ivk.sigma), np.asarray(ubm_iv.variances)) or np.shares_memory(np.asarray(ivk.T), np.asarray(ubm_iv.means)):
+                chk.fail("after IVectorMachine.fit(update_sigma=%s) the extractor's sigma / T share memory with the UBM's arrays" % upd, {"update_sigma": upd})
+            else:
+                w_before = np.array(ivk.project(stats[0]))
+                sig_before = np.array(ivk.sigma)
+                ubm_iv.variances[...] = np.asarray(ubm_iv.variances) * 3.0
+                if not (np.array_equal(np.asarray(ivk.sigma), sig_before) and np.array_equal(np.asarray(ivk.project(stats[0])), w_before)):
+                    chk.fail("overwriting the UBM's variances after IVectorMachine.fit(update_sigma=%s) changes the trained extractor / its i-vectors" % upd, {"update_sigma": upd})
         guarded("IVectorMachine.project/transform", {"stats": stats, "machine": ivm}, lambda: (ivm.project(stats[0]), ivm.transform(stats[:2])),
                 lambda o: [np.asarray(o[0])])
         # ---------------------------------------------------------------- WCCN / whitening
